@@ -1,7 +1,7 @@
 (* C09 — Cancellation is honoured everywhere; context-aware I/O yields exact prefixes. *)
 From Coq Require Import List ZArith Bool Lia.
 Import ListNotations.
-From GU Require Import C09.IR C09.Gen C09.SkExpected C09.Model C09.Proofs C09.ProofsGen C09.ProofsB.
+From GU Require Import C09.IR C09.Gen C09.SkExpected C09.SkCheck C09.Model C09.Proofs C09.ProofsGen C09.ProofsB.
 Local Open Scope Z_scope.
 
 (* The theorems below are about the model INSTANTIATED WITH coq/C09/Gen.v, which translator-c09/cmd/ckpt2coq regenerates
@@ -50,12 +50,20 @@ Print Assumptions generated_traces_are_the_analysed_traces.
 Theorem generated_copy_move_skeletons_as_analysed :
   (gen_sk_CopyBetweenFSWithExclusionPatterns, gen_sk_CopyBetweenFSWithExclusionRegexes, gen_sk_copyFolderBetweenFSWithExclusionRegexes,
    gen_sk_copyFileBetweenFSWithExclusionPatternsWithExclusionRegexes, gen_sk_VFS_MoveWithContext, gen_sk_VFS_move, gen_sk_VFS_moveFolder,
-   gen_sk_VFS_moveFile, gen_sk_VFS_CopyToDirectoryWithContext)
+   gen_sk_VFS_moveFile, gen_sk_VFS_CopyToDirectoryWithContext, gen_sk_VFS_RemoveWithPrivileges, gen_sk_VFS_ReadFileContent)
   = (exp_sk_CopyBetweenFSWithExclusionPatterns, exp_sk_CopyBetweenFSWithExclusionRegexes, exp_sk_copyFolderBetweenFSWithExclusionRegexes,
      exp_sk_copyFileBetweenFSWithExclusionPatternsWithExclusionRegexes, exp_sk_VFS_MoveWithContext, exp_sk_VFS_move, exp_sk_VFS_moveFolder,
-     exp_sk_VFS_moveFile, exp_sk_VFS_CopyToDirectoryWithContext).
+     exp_sk_VFS_moveFile, exp_sk_VFS_CopyToDirectoryWithContext, exp_sk_VFS_RemoveWithPrivileges, exp_sk_VFS_ReadFileContent).
 Proof. reflexivity. Qed.
 Print Assumptions generated_copy_move_skeletons_as_analysed.
+
+(* RemoveWithPrivileges: every removal attempt is immediately followed by the return on nil / timeout / cancelled, so
+   that a cancelled attempt never escalates to the ownership change or to the forced removal (which runs without the
+   context) *)
+Theorem generated_privileged_removal_returns_context_errors :
+  attempts_return_context_errors gen_sk_VFS_RemoveWithPrivileges = true.
+Proof. reflexivity. Qed.
+Print Assumptions generated_privileged_removal_returns_context_errors.
 
 (* the kinds: by the generated rules of ConvertIOError / ConvertContextError and the generated source of
    DetermineContextError, an ended context is reported as cancelled / timeout and an unexpected end of stream as EOF *)
